@@ -26,6 +26,7 @@ ModelAfter(ev) ==
 (* clauses of C20 evaluated on logged data against the plain-set model *)
 Failed(ev) ==
     LET m2 == ModelAfter(ev) IN
+    IF ev.obs_raised # "" THEN {"len_iteration_or_membership_raised"} ELSE
     {c \in {"len", "iter_members", "iter_once", "contains", "overlapping_iterations", "draw_member", "draw_raises",
             "absent_remove_raises", "present_remove_raises", "add_raises",
             "drawall_members", "drawall_uniform"} :
